@@ -333,7 +333,7 @@ func runC12(c *Check) {
 	// O5 hook
 	nh := 0
 	for _, cl := range CallsIn(I) {
-		if cl.Common().IsInvoke() || cl.Common().StaticCallee() != nil || !AllOrigins(cl.Common().Value, exportedFieldLoad("OnRetryHook")) {
+		if cl.Common().IsInvoke() || CalleeFn(cl.Common()) != nil || !AllOrigins(cl.Common().Value, exportedFieldLoad("OnRetryHook")) {
 			continue
 		}
 		nh++
